@@ -80,3 +80,12 @@ Theorem C05_label_removal_preserves_behaviour_with_leaf_calls :
     hist b = hist a /\ st b = st a /\ mem b = mem a /\
     regs b = ResolveCalls.map_regs FloatAlg q (regs a) /\ pc b = instrs_before q (pc a).
 Proof. exact ResolveCalls.resolve_preserves_behaviour_with_calls_float. Qed.
+
+Theorem C05_label_free_runs_with_leaf_calls_are_runs_of_the_labelled_program :
+  forall (O : @oracle float) (q : list (@line float)),
+    length q <= 4096 -> ResolveCalls.frag q = true -> forall fuel', exists fuel,
+    let a := run FloatAlg O q fuel (init_state FloatAlg) in
+    let b := run FloatAlg O (resolve FloatAlg q) fuel' (init_state FloatAlg) in
+    hist b = hist a /\ st b = st a /\ mem b = mem a /\
+    regs b = ResolveCalls.map_regs FloatAlg q (regs a) /\ pc b = instrs_before q (pc a).
+Proof. exact ResolveCalls.resolve_behaviour_with_calls_converse_float. Qed.
